@@ -16,6 +16,7 @@ variant) with a crash there, followed by restart + checks.
 import io
 import json
 import os
+import tempfile
 import shutil as _real_shutil
 import warnings
 from datetime import datetime, timedelta
@@ -1242,21 +1243,22 @@ def run_one(tape, only=None):
     if only is not None:
         mode = tuple(only["crash"]) if only.get("crash") is not None else "none"
     root = fresh_dir(scratch_root(), "c15")
+    # the default temporary directory of the run: private to this process (a
+    # changed save_cache may write there; crashed executions leave files
+    # behind) and, where /tmp and the scratch root are different file systems,
+    # on another one than the cache file - so a move from there is a copy
+    saved_tempdir = tempfile.tempdir
+    other_tmp = os.path.join("/tmp", f"typhon-verif-c15-{os.getpid():08d}")
+    _real_shutil.rmtree(other_tmp, ignore_errors=True)
+    os.makedirs(other_tmp, exist_ok=True)
+    tempfile.tempdir = other_tmp
     try:
         ex = Exec(w, root, mode)
         ex.run()
     finally:
         _real_shutil.rmtree(root, ignore_errors=True)
-        # a changed save_cache may put its backup into the system's temporary
-        # directory (another file system: that is the point of the cross-device
-        # model); crashed executions leave those files behind - sweep them
-        import glob
-        import tempfile
-        for f in glob.glob(os.path.join(tempfile.gettempdir(), "info.json.*")):
-            try:
-                os.remove(f)
-            except OSError:
-                pass
+        tempfile.tempdir = saved_tempdir
+        _real_shutil.rmtree(other_tmp, ignore_errors=True)
     for v in ex.V:
         if v.get("extra") is None:
             v["extra"] = {"crash": None}
